@@ -23,8 +23,8 @@ func init() {
 			"each base is delivered unchanged and after 1..3 operations of the attack grammar (XSW shapes, evil twins as sibling/parent/child incl. inside ds:Object/Extensions/Advice, moved/copied/emptied signatures, ID and Reference edits, KeyInfo substitution, attacker re-signing, comment/CDATA/PI injection, namespace re-binding, re-encryption to the SP certificate, partial removal, transform edits, byte-level round-trip-unstable splices) through the XML, POST and artifact entry points. " +
 			"Oracle: error, or the projection (issuer, subject, conditions, statements) of the returned assertion is one the signing oracle signed with a key trusted in that configuration. Non-trivial = well-formed document that reached signature/assertion processing or was accepted; distinct by (base, trust, operation sequence, entry).",
 		Assumptions: []string{"the attacker cannot forge signatures or find hash collisions", "SignatureVerifier overrides are application code and not exercised", "all non-signature fields of hostile documents are kept valid so that only the signature can save the SP"},
-		FloorQuick:  5000,
-		FloorThor:   100000,
+		FloorQuick:  2000,
+		FloorThor:   8000,
 		Run:         runC01,
 		LevelText:   "A signing oracle that owns the IdP keys knows exactly which assertion contents were ever signed by which key; a transformation grammar of signature-wrapping and related attacks is applied to those messages and every acceptance by the real SP is checked for membership in the signed set of the current trust configuration. Sampled grammar (attacker space is unbounded): held-on-observed.",
 		LevelNote:   "Trusts goxmldsig only for producing genuine signatures; the oracle never re-implements signature validation. Projection uses encoding/xml into saml.Assertion on both sides.",
